@@ -36,7 +36,12 @@ MENU = [
     ["assert (1, 2) == snapshot((1,))"],
     ['assert "a\\nb" == snapshot("a")'],
     ["for x in (3, 1):", "    assert x >= snapshot(2)"],
+    ["assert defaultdict(list, {1: [2]}) == snapshot(defaultdict(list))"],
+    ["assert NT(a=1, b=[2]) == snapshot(NT(a=1, b=[]))"],
 ]
+# a test whose comparison raises inside the list alignment must not disturb the snapshots of later tests
+RAISING_FIRST = ("class Boom:\n    def __eq__(self, other):\n        raise ValueError('boom')\n    def __repr__(self):\n        return 'Boom()'\n\n\n"
+                 "def test_aa_raises():\n    try:\n        assert [Boom(), 2] == snapshot([1, 2, 3])\n    except ValueError:\n        pass\n\n\n")
 
 
 def bounds(tier):
@@ -85,12 +90,16 @@ def _cases(tier):
     for k in range(1, _blen(tier) + 1):
         for combo in itertools.product(range(len(MENU)), repeat=k):
             cases.append({"body": list(combo)})
+    for i in range(len(MENU)):
+        cases.append({"body": [i], "after_raise": True})
     return cases
 
 
 def build(tier, seed):
     cs = _cases(tier)
-    return [{"cases": cs[i : i + BATCH]} for i in range(0, len(cs), BATCH)]
+    a = [c for c in cs if not c.get("after_raise")]
+    b = [c for c in cs if c.get("after_raise")]
+    return [{"cases": a[i : i + BATCH]} for i in range(0, len(a), BATCH)] + [{"cases": b[i : i + 4]} for i in range(0, len(b), 4)]
 
 
 def _site(i, c):
@@ -108,7 +117,7 @@ def _site(i, c):
 
 def _exprs(c):
     if "body" in c:
-        return ["DC"]
+        return ["DC", "defaultdict", "NT"]
     return [c["p"], c["v"]]
 
 
@@ -120,7 +129,10 @@ def _analyze(c, i, before, after, rx, ctx):
 
 def _judge(cases):
     needs = ["HasRepr"] if any("Opaque" in e for c in cases for e in _exprs(c)) else []
-    return batch.one_file(cases, _site, _exprs, ["create", "fix"], _analyze, needs=needs, calls=False)
+    hdr = ""
+    if any(c.get("after_raise") for c in cases):
+        hdr = "from inline_snapshot import snapshot\n" + RAISING_FIRST
+    return batch.one_file(cases, _site, _exprs, ["create", "fix"], _analyze, needs=needs, calls=False, header=hdr)
 
 
 def run_case(case):
